@@ -67,7 +67,9 @@ def _build(sc):
     from pyphysim.channels import fading, fading_generators, singleuser, multiuser
     rng = np.random.RandomState(sc["seed"])
     np.random.seed(sc["seed"] % (2 ** 31))
-    ts = [3.25e-8, 1e-6, 5e-5, 2.0 ** -18][rng.randint(0, 4)]
+    # nominal intervals with a few ppm of clock offset: the module-level COST259 profile objects are shared by all the
+    # scenarios of a worker process and get discretised for many nearly equal sampling intervals
+    ts = [3.25e-8, 1e-6, 5e-5, 2.0 ** -18][rng.randint(0, 4)] * (1 + int(rng.randint(-3, 4)) * 7e-6)
     nr, nt = sc["ant"]
     shape = None if nr == 0 else (nr, nt)
     kind = sc["kind"]
